@@ -216,10 +216,15 @@ let same_all (rs : string list) : string =
   match rs with
   | [] -> "NO-RESULT"
   | r :: _ -> if List.for_all (fun x -> x = r) rs then r else "SPECDIFF thread-count-dependent: " ^ short (String.concat " ; " rs)
-let nts = [1; 2; 3; 5; 16; 64]
-(* debug-assertion dependent results *)
-let dbg2 (g : bool -> string) : string =
-  let r0 = g false and r1 = g true in
+let nts = [1; 2; 5; 16]
+(* debug-assertion dependent results.  `relevant` = the input is one on which a debug assertion of the code can fire
+   (empty / length-mismatched interpolation input, a root argument that does not have the stated order); only then is the
+   model run a second time with debug assertions on.  This is an optimisation of the oracle only: if the flag were wrong the
+   checked build of the implementation would disagree with the single reported result and the case would be flagged. *)
+let dbg2 ?(relevant = true) (g : bool -> string) : string =
+  let r0 = g false in
+  if not relevant then r0 else
+  let r1 = g true in
   if r0 = r1 then r0 else "D0 " ^ r0 ^ " | D1 " ^ r1
 
 let expect_eq_sp (spec : sp) (ms : sp) : string option =
@@ -249,14 +254,16 @@ let run_one (type f) (f : f fld) (op : string) (g : string list list) : string =
   let interp_op (run : bool -> f list option) =
     let xs = se_ 0 and ys = se_ 1 in
     let in_property = Array.length xs > 0 && Array.length xs = Array.length ys && distinct xs in
-    dbg2 (fun d -> if in_property then poly_result f (run d) (interp_check w xs ys) false
-                   else poly_result f (run d) (fun _ -> None) true) in
+    dbg2 ~relevant:(Array.length xs = 0 || Array.length xs <> Array.length ys)
+      (fun d -> if in_property then poly_result f (run d) (interp_check w xs ys) false
+                else poly_result f (run d) (fun _ -> None) true) in
   let eval_spec () = let a = spoly f (grp 0) in Array.map (fun x -> sp_eval w a x) (se_ 1) in
   (* interpolant of a codeword on the coset: spec for n <= 1024, otherwise the model's, checked at sampled positions *)
   let interpolant (offset : ZZ.t) (cw : string list) : (sp, string) result =
     let v = selems f cw in
     let n = Array.length v in
-    if n <= 1024 then (match sp_coset_interpolant w offset v with Some s -> Ok s | None -> Error "no-spec")
+    if n = 0 then Error "no-spec"
+    else if n <= 1024 then (match sp_coset_interpolant w offset v with Some s -> Ok s | None -> Error "no-spec")
     else match pint_fast_coset_interpolate_b act intt (bfe_new offset) (melems f cw), coset w offset n with
       | Some l, Some dom ->
           let ms = model_sp f l in
@@ -292,7 +299,7 @@ let run_one (type f) (f : f fld) (op : string) (g : string list list) : string =
       let pts = zip (me 0) (me 1) in
       let n = List.length pts in
       let xs = Array.sub (se_ 0) 0 n and ys = Array.sub (se_ 1) 0 n in
-      dbg2 (fun d -> if n > 0 && distinct xs
+      dbg2 ~relevant:(n = 0) (fun d -> if n > 0 && distinct xs
              then poly_result f (pint_lagrange_interpolate_zipped o ntt intt d pts) (interp_check w xs ys) false
              else poly_result f (pint_lagrange_interpolate_zipped o ntt intt d pts) (fun _ -> Some "panic expected") true)
   | "fast_interpolate" -> interp_op (fun d -> pint_fast_interpolate o ntt intt d (me 0) (me 1))
@@ -306,7 +313,9 @@ let run_one (type f) (f : f fld) (op : string) (g : string list list) : string =
       let rows = List.tl (List.tl g) in
       let n = Array.length xs in
       let in_property = n > 0 && distinct xs && List.for_all (fun r -> List.length r = n * w) rows in
-      dbg2 (fun d ->
+      dbg2 ~relevant:(n = 0 || not (List.for_all (fun r -> List.length r = n * w) rows)
+                      || not (ZZ.equal (bfe_value (mod_pow root (ZZ.erem order (ZZ.pow (zi 2) 32)))) ZZ.one))
+        (fun d ->
           match pint_batch_fast_interpolate o ntt intt d dom (List.map (melems f) rows) root order with
           | None -> if in_property && (not d || ZZ.equal (bfe_value (mod_pow root (ZZ.erem order (ZZ.pow (zi 2) 32)))) ZZ.one)
               then "SPECDIFF model=PANIC (no panic expected)" else "PANIC"
@@ -368,7 +377,7 @@ let run_one (type f) (f : f fld) (op : string) (g : string list list) : string =
       let off = z_at 0 0 in
       let vals = me 1 and modulus = mpoly f (grp 2) in
       let smod = spoly f (grp 2) in
-      dbg2 (fun d ->
+      dbg2 ~relevant:(vals = []) (fun d ->
           let m = match pint_fmci_preprocess o ntt intt (zi (List.length vals)) (bfe_new off) modulus with
             | None -> None
             | Some pre -> pint_fmci_with_zerofiers_and_ntt_friendly_multiple o act ntt intt d vals (bfe_new off) modulus pre in
@@ -379,7 +388,7 @@ let run_one (type f) (f : f fld) (op : string) (g : string list list) : string =
             | Error e -> "SPECDIFF " ^ e)
   | "coset_extrapolate" ->
       let off = z_at 0 0 in
-      dbg2 (fun d -> extrap_result (pint_coset_extrapolate o act ntt intt d (bfe_new off) (me 1) (me 2))
+      dbg2 ~relevant:(me 1 = []) (fun d -> extrap_result (pint_coset_extrapolate o act ntt intt d (bfe_new off) (me 1) (me 2))
                (extrapolate_spec off [grp 1] (se_ 2)))
   | "batch_coset_extrapolate" | "par_batch_coset_extrapolate" ->
       let off = z_at 0 0 and n = int_at 0 1 in
@@ -387,7 +396,7 @@ let run_one (type f) (f : f fld) (op : string) (g : string list list) : string =
           let all = chunk (n * w) (grp 1) in List.filter (fun c -> List.length c = n * w) all in
       let spec = if n <= 0 then Error "no-spec" else extrapolate_spec off cws (se_ 2) in
       let spec = match spec with Ok s when cws = [] && table_root n = None -> Error "no-spec" | s -> s in
-      dbg2 (fun d ->
+      dbg2 ~relevant:(n <= 0) (fun d ->
           let m = if op = "batch_coset_extrapolate" then pint_batch_coset_extrapolate o act ntt intt d (bfe_new off) (zi n) (me 1) (me 2)
             else pint_par_batch_coset_extrapolate o act ntt intt d (bfe_new off) (zi n) (me 1) (me 2) in
           extrap_result m spec)
@@ -443,16 +452,54 @@ let run (op : string) (a : string list) : string =
        | "x" -> run_one xf op g
        | _ -> "BAD-FIELD")
 
+let process_line (line : string) : string option =
+  let line = String.trim line in
+  if line = "" || line.[0] = '#' then None else
+  match List.filter (fun s -> s <> "") (String.split_on_char ' ' line) with
+  | id :: op :: args ->
+      let res = try run op args with e -> "ORACLE-EXCEPTION " ^ Printexc.to_string e in
+      Some (id ^ " " ^ res)
+  | _ -> None
+
+let read_lines (ic : in_channel) : string list =
+  let acc = ref [] in
+  (try while true do acc := input_line ic :: !acc done with End_of_file -> ());
+  List.rev !acc
+
+let sequential (lines : string list) : unit =
+  List.iter (fun l -> match process_line l with Some r -> print_string r; print_newline () | None -> ()) lines
+
+(* The extracted field arithmetic costs about 1 us per operation and the model repeats all the work the code does, so the
+   case file is split round-robin over worker processes (copies of this executable started through the shell; plain
+   Stdlib, no Unix library).  C08_ORACLE_JOBS=1 disables it. *)
 let () =
-  try
-    while true do
-      let line = String.trim (input_line stdin) in
-      if line <> "" && line.[0] <> '#' then begin
-        match List.filter (fun s -> s <> "") (String.split_on_char ' ' line) with
-        | id :: op :: args ->
-            let res = try run op args with e -> "ORACLE-EXCEPTION " ^ Printexc.to_string e in
-            print_string id; print_char ' '; print_string res; print_newline ()
-        | _ -> ()
-      end
-    done
-  with End_of_file -> ()
+  if Array.length Sys.argv >= 3 && Sys.argv.(1) = "--worker" then begin
+    let ic = open_in Sys.argv.(2) in
+    sequential (read_lines ic); close_in ic
+  end else begin
+    let lines = read_lines stdin in
+    let jobs = try int_of_string (Sys.getenv "C08_ORACLE_JOBS") with _ -> 12 in
+    let n = List.length lines in
+    if jobs <= 1 || n < 16 then sequential lines
+    else begin
+      let dir = Filename.temp_file "c08oracle" ".d" in
+      Sys.remove dir; Sys.mkdir dir 0o700;
+      let ocs = Array.init jobs (fun k -> open_out (Printf.sprintf "%s/in%d" dir k)) in
+      List.iteri (fun i l -> output_string ocs.(i mod jobs) l; output_char ocs.(i mod jobs) '\n') lines;
+      Array.iter close_out ocs;
+      let q = Filename.quote in
+      let cmd = String.concat " " (List.init jobs (fun k ->
+          Printf.sprintf "(%s --worker %s > %s) &" (q Sys.executable_name) (q (Printf.sprintf "%s/in%d" dir k)) (q (Printf.sprintf "%s/out%d" dir k))))
+                ^ " wait" in
+      let _ = Sys.command cmd in
+      for k = 0 to jobs - 1 do
+        let f = Printf.sprintf "%s/out%d" dir k in
+        (if Sys.file_exists f then begin
+            let ic = open_in f in
+            List.iter (fun l -> print_string l; print_newline ()) (read_lines ic); close_in ic; Sys.remove f
+          end);
+        Sys.remove (Printf.sprintf "%s/in%d" dir k)
+      done;
+      (try Sys.rmdir dir with _ -> ())
+    end
+  end
